@@ -61,6 +61,9 @@ from pybrops.model.vmat.fcty.DenseTwoWayDHAdditiveGenicVarianceMatrixFactory imp
 from pybrops.breed.prot.sel.prob.UsefulnessCriterionSelectionProblem import (
     UsefulnessCriterionSubsetMateSelectionProblem, UsefulnessCriterionRealMateSelectionProblem,
     UsefulnessCriterionBinaryMateSelectionProblem, UsefulnessCriterionIntegerMateSelectionProblem)
+from pybrops.breed.prot.sel.UsefulnessCriterionSelection import (
+    UsefulnessCriterionSubsetSelection, UsefulnessCriterionRealSelection,
+    UsefulnessCriterionBinarySelection, UsefulnessCriterionIntegerSelection)
 
 ASSUMPTIONS = [
     "alleles are coded 0/1 per chromosome copy; two-/three-/four-way parents are inbred (both phases equal), dihybrid "
@@ -98,6 +101,9 @@ FCTY = {"two": DenseTwoWayDHAdditiveGeneticVarianceMatrixFactory, "three": Dense
         "dihybrid": DenseDihybridDHAdditiveGeneticVarianceMatrixFactory}
 UCPROB = {"subset": UsefulnessCriterionSubsetMateSelectionProblem, "real": UsefulnessCriterionRealMateSelectionProblem,
           "binary": UsefulnessCriterionBinaryMateSelectionProblem, "integer": UsefulnessCriterionIntegerMateSelectionProblem}
+
+UCPROT = {"subset": UsefulnessCriterionSubsetSelection, "real": UsefulnessCriterionRealSelection,
+          "binary": UsefulnessCriterionBinarySelection, "integer": UsefulnessCriterionIntegerSelection}
 
 # known findings (see /verif/known_findings.d/C12.json, /verif/proposed_fixes/F-C12-*.md)
 K_DIAG = "F-C12-a"      # entries whose last two parents coincide are never computed (three-/four-way, dihybrid)
@@ -256,6 +262,12 @@ def uc_case(draw):
         "upper_percentile": draw(st.one_of(st.sampled_from([0.1, 0.05, 0.5, 1.0, 0.01]), st.floats(1e-4, 1.0))),
         "nself": draw(st.sampled_from([0, 0, 1, 2, 4])),
         "ncross": draw(st.integers(1, 3)), "nprogeny": draw(st.integers(1, 80)),
+        # route: the Problem constructor directly, or the selection protocol's problem() with the breeding-value
+        # matrix every protocol call carries: none / the model's own GEBVs in the candidates' order / the same
+        # GEBVs held in another taxa order (labels moved with the rows)
+        "via": draw(st.sampled_from(["problem", "protocol", "protocol"])),
+        "bvmat": draw(st.sampled_from(["none", "gebv", "gebv_reordered", "gebv_reordered"])),
+        "bv_perm_seed": draw(st.integers(0, 2 ** 16)),
     })
     return pop
 
@@ -695,6 +707,29 @@ def _uc_problem(scheme, b, fcty, gm, prob_kind, uniq, ncross, nprogeny, nself, p
     return pr, expect_xmap
 
 
+def _uc_protocol_problem(scheme, b, fcty, gm, prob_kind, uniq, ncross, nprogeny, nself, pct, bv_kind, perm_seed):
+    """the same UC problem, obtained through SelectionProtocol.problem(pgmat, gmat, ptdf, bvmat, gpmod, t_cur, t_max)"""
+    k = NPARENT[scheme]
+    comb = itertools.combinations if uniq else itertools.combinations_with_replacement
+    expect_xmap = [list(c) for c in comb(range(b.n), k)]
+    if not expect_xmap:
+        return None
+    prot = UCPROT[prob_kind](
+        ntrait=b.t, nself=nself, upper_percentile=float(pct), vmatfcty=fcty, gmapfn=gm, unique_parents=uniq,
+        ncross=min(2, len(expect_xmap)) if prob_kind == "subset" else 1, nparent=k, nmating=ncross, nprogeny=nprogeny, nobj=b.t)
+    bv = None
+    if bv_kind != "none":
+        pg = b.pgmat
+        if bv_kind == "gebv_reordered" and b.n > 1:
+            perm = numpy.random.RandomState(perm_seed).permutation(b.n)
+            if (perm == numpy.arange(b.n)).all():
+                perm = numpy.roll(perm, 1)
+            pg = b.pgmat.select_taxa(perm)
+        bv = b.algmod.gebv(pg)
+    pr = prot.problem(b.pgmat, b.pgmat, None, bv, b.algmod, 0, 1)
+    return pr, expect_xmap
+
+
 def _uc_verify(ctx, scheme, b, pr, expect_xmap, nself, pct, beta, pre="", where=""):
     """usefulness criterion of every cross of the problem vs. parental mean + i * sqrt(enumerated variance)"""
     k = NPARENT[scheme]
@@ -753,8 +788,18 @@ def check_uc(case, ctx):
     ctx.label("unique_parents=%s" % case["unique_parents"])
     ctx.label("cancelling_effects_at_coincident_markers", bool(case.get("cancelling")))
     uniq = bool(case["unique_parents"])
-    made = _uc_problem(scheme, b, FCTY[scheme](), HaldaneMapFunction(), case["problem"], uniq, case["ncross"],
-                       case["nprogeny"], nself, case["upper_percentile"])
+    via = case.get("via", "problem")
+    if float(case["upper_percentile"]) >= 1.0:
+        via = "problem"                       # the protocols accept percentiles in the open interval (0,1) only
+    ctx.label("via=%s" % via)
+    if via == "protocol":
+        ctx.label("protocol.bvmat=%s" % case["bvmat"])
+        made = _uc_protocol_problem(scheme, b, FCTY[scheme](), HaldaneMapFunction(), case["problem"], uniq,
+                                    case["ncross"], case["nprogeny"], nself, case["upper_percentile"], case["bvmat"],
+                                    case["bv_perm_seed"])
+    else:
+        made = _uc_problem(scheme, b, FCTY[scheme](), HaldaneMapFunction(), case["problem"], uniq, case["ncross"],
+                           case["nprogeny"], nself, case["upper_percentile"])
     if made is None:
         ctx.label("no_cross_possible")
         return
